@@ -214,14 +214,22 @@ pub enum Src {
     Io,
 }
 
-/// io::Read over a slice that counts delivered bytes
+/// io::Read over a slice that counts delivered bytes; with `intr > 0` it reports ErrorKind::Interrupted once before
+/// every byte whose index is a multiple of `intr` (and at the end of input), which the io::Read contract allows
 pub struct CountingRead<'a> {
     s: &'a [u8],
     i: usize,
     n: Rc<Cell<usize>>,
+    intr: usize,
+    pending: bool,
 }
 impl<'a> std::io::Read for CountingRead<'a> {
     fn read(&mut self, buf: &mut [u8]) -> std::io::Result<usize> {
+        if self.intr > 0 && self.i % self.intr == 0 && !self.pending {
+            self.pending = true;
+            return Err(std::io::Error::new(std::io::ErrorKind::Interrupted, "interrupted"));
+        }
+        self.pending = false;
         if self.i < self.s.len() && !buf.is_empty() {
             buf[0] = self.s[self.i];
             self.i += 1;
@@ -275,9 +283,20 @@ pub fn run_reader_vec(s: &[u8], src: Src, extra: usize) -> Vec<Ev> {
         }
         Src::Io => {
             let n = Rc::new(Cell::new(0));
-            let mut r = SmlReader::with_vec_buffer().from_reader(CountingRead { s, i: 0, n: n.clone() });
+            let mut r = SmlReader::with_vec_buffer().from_reader(CountingRead { s, i: 0, n: n.clone(), intr: 0, pending: false });
             reader_loop!(r, n.get(), s.len(), extra)
         }
+    })) {
+        Ok(v) => v,
+        Err(_) => vec![vec![-1, 8]],
+    }
+}
+/// SmlReader (Vec buffer) over an io::Read that interleaves ErrorKind::Interrupted
+pub fn run_reader_vec_interrupted(s: &[u8], extra: usize) -> Vec<Ev> {
+    match catch_unwind(AssertUnwindSafe(|| {
+        let n = Rc::new(Cell::new(0));
+        let mut r = SmlReader::with_vec_buffer().from_reader(CountingRead { s, i: 0, n: n.clone(), intr: 5, pending: false });
+        reader_loop!(r, n.get(), s.len(), extra)
     })) {
         Ok(v) => v,
         Err(_) => vec![vec![-1, 8]],
@@ -296,7 +315,7 @@ pub fn run_reader_default(s: &[u8], src: Src, extra: usize) -> Vec<Ev> {
         }
         Src::Io => {
             let n = Rc::new(Cell::new(0));
-            let mut r = SmlReader::from_reader(CountingRead { s, i: 0, n: n.clone() });
+            let mut r = SmlReader::from_reader(CountingRead { s, i: 0, n: n.clone(), intr: 0, pending: false });
             reader_loop!(r, n.get(), s.len(), extra)
         }
     })) {
@@ -317,7 +336,7 @@ pub fn run_reader_static<const N: usize>(s: &[u8], src: Src, extra: usize) -> Ve
         }
         Src::Io => {
             let n = Rc::new(Cell::new(0));
-            let mut r = SmlReader::with_static_buffer::<N>().from_reader(CountingRead { s, i: 0, n: n.clone() });
+            let mut r = SmlReader::with_static_buffer::<N>().from_reader(CountingRead { s, i: 0, n: n.clone(), intr: 0, pending: false });
             reader_loop!(r, n.get(), s.len(), extra)
         }
     })) {
